@@ -3,6 +3,7 @@ package rules
 import (
 	"fmt"
 	"go/types"
+	"regexp"
 	"sort"
 	"strings"
 
@@ -162,8 +163,13 @@ func checkGenesisFields(r *core.Run, m string) {
 			}
 		}
 	}
-	scan(exp, func(i int) { written[i] = true }, func(int) {})
-	scan(imp, func(int) {}, func(i int) { read[i] = true })
+	for _, f := range transparentClosure(r, exp) {
+		scan(f, func(i int) { written[i] = true }, func(int) {})
+	}
+	impFuncs := transparentClosure(r, imp)
+	for _, f := range impFuncs {
+		scan(f, func(int) {}, func(i int) { read[i] = true })
+	}
 	n := 0
 	for i := 0; i < st.NumFields(); i++ {
 		fn := st.Field(i).Name()
@@ -186,6 +192,25 @@ func checkGenesisFields(r *core.Run, m string) {
 	}
 	r.Count("genesis_fields", n)
 	checkUnfiltered(r, m, gs, st, exp, imp)
+}
+
+// transparentClosure: f and the transparent helpers (functions outside the rule vocabulary) it calls, to depth 3.
+func transparentClosure(r *core.Run, f *ssa.Function) []*ssa.Function {
+	out := []*ssa.Function{f}
+	seen := map[*ssa.Function]bool{f: true}
+	for i := 0; i < len(out) && i < 40; i++ {
+		for _, b := range out[i].Blocks {
+			for _, ins := range b.Instrs {
+				if c, ok := ins.(ssa.CallInstruction); ok {
+					if h := c.Common().StaticCallee(); h != nil && !seen[h] && r.P.Transparent(h) {
+						seen[h] = true
+						out = append(out, h)
+					}
+				}
+			}
+		}
+	}
+	return out
 }
 
 // checkUnfiltered: list fields are exported as the direct result of a keeper getter that appends every
@@ -235,30 +260,33 @@ func checkUnfiltered(r *core.Run, m string, gs *types.Named, st *types.Struct, e
 		}
 		// import side: a range loop over genState.<fn> in which every iteration persists the element
 		keyI := core.Key("E6-all", m+".GenesisState."+fn, "import-all")
-		resI := r.Resolver(imp)
 		okLoop := false
-		for _, l := range cfgx.Loops(imp) {
-			iff := cfgx.IfOf(l.Header)
-			if iff == nil {
-				continue
-			}
-			ct := resI.Of(iff.Cond).String()
-			if !strings.Contains(ct, "builtin.len(#2."+fn+")") {
-				continue
-			}
-			setB := map[*ssa.BasicBlock]bool{}
-			for b := range l.Body {
-				for _, ins := range b.Instrs {
-					if c, ok := ins.(ssa.CallInstruction); ok {
-						_, cs := resI.CalleeName(c.Common())
-						if len(cs) > 0 && hasWrites(r, cs) {
-							setB[b] = true
+		reLen := regexp.MustCompile(`builtin\.len\(#[0-9]+\.` + regexp.QuoteMeta(fn) + `\)`)
+		for _, impF := range transparentClosure(r, imp) {
+			resI := r.Resolver(impF)
+			for _, l := range cfgx.Loops(impF) {
+				iff := cfgx.IfOf(l.Header)
+				if iff == nil {
+					continue
+				}
+				ct := resI.Of(iff.Cond).String()
+				if !reLen.MatchString(ct) {
+					continue
+				}
+				setB := map[*ssa.BasicBlock]bool{}
+				for b := range l.Body {
+					for _, ins := range b.Instrs {
+						if c, ok := ins.(ssa.CallInstruction); ok {
+							_, cs := resI.CalleeName(c.Common())
+							if len(cs) > 0 && hasWrites(r, cs) {
+								setB[b] = true
+							}
 						}
 					}
 				}
-			}
-			if len(setB) > 0 && cutsAllCycles(l, setB) {
-				okLoop = true
+				if len(setB) > 0 && cutsAllCycles(l, setB) {
+					okLoop = true
+				}
 			}
 		}
 		if okLoop {
